@@ -9,8 +9,16 @@
            digits from +4
     special (h & 0xC000 = 0xC000): 0xC000 NaN, 0xD000 +Infinity, 0xF000 -Infinity (PG ≥ 14)
   value = ± Σ dᵢ · 10000^(weight - i)
+
+  The value is carried exactly, as a decimal ±mant·10^exp10 (`NumView.exact`); `posValue_eq` (Proofs/NumericValue.lean)
+  proves that this decimal is the positional sum above, `Props/C05.lean` restates it over ℚ.  What the tool must
+  RETURN is a float64: the one nearest to that decimal (`NumView.bits`, round to nearest, ties to even — the executable
+  reference is `Txt.f64OfRat`).  This file also defines what a decimal text `[-]digits e [-]digits` denotes
+  (`readDecimal`), independently of any code that produces such texts, and the contract of a correctly rounding
+  text-to-float64 conversion (`ParseFloatOK`), which is what `strconv.ParseFloat` documents.
 -/
 import PgVerif.Basic.Bytes
+import PgVerif.Types.Text
 namespace PgVerif.Spec
 open PgVerif
 
@@ -62,22 +70,107 @@ def encNumeric (form : HeaderForm) : Numeric → Bytes
     | .short => le 2 (shortHeader neg w ds) ++ encDigits digits
     | .long => le 2 (longHeader neg ds) ++ le 2 (ofSigned 16 w) ++ encDigits digits
 
-/-- the exact value of a finite numeric: (negative?, integer mantissa, base-10000 exponent),
-value = ± mantissa · 10000^exponent with mantissa = Σ dᵢ·10000^(k-1-i), exponent = weight - k + 1 -/
+/-- the exact value of a numeric: a special value, or the decimal ±mant·10^exp10 (sign, integer mantissa, base-10
+exponent).  For the stored digits d₀…d_{k−1} with weight w: mant = Σ dᵢ·10000^(k−1−i), exp10 = 4·(w − k + 1). -/
 inductive NumView where
   | nan | pinf | ninf
-  | exact (neg : Bool) (mant : Nat) (exp : Int)
+  | exact (neg : Bool) (mant : Nat) (exp10 : Int)
 deriving Repr, DecidableEq, Inhabited
 
 def mantOf : List Nat → Nat → Nat
   | [], acc => acc
   | d :: ds, acc => mantOf ds (acc * 10000 + d)
 
-/-- what a correct tool must report.  A value without digits is zero. -/
+/-- the value PostgreSQL displays.  A value without digits is zero.  The sign is the stored sign, also over a zero
+mantissa (numeric_out prints `-0` for such a — non-canonical — stored value). -/
 def Numeric.view : Numeric → NumView
   | .nan => .nan | .pinf => .pinf | .ninf => .ninf
   | .fin neg w _ digits =>
-    if digits.isEmpty then .exact false 0 0 else .exact neg (mantOf digits 0) (w - digits.length + 1)
+    if digits.isEmpty then .exact false 0 0 else .exact neg (mantOf digits 0) (4 * (w - digits.length + 1))
+
+/-- PostgreSQL's definition of the value of the digit string, digit by digit: Σ dᵢ·10000^(w−i), scaled by 10^S so that
+it is a natural number (meaningful when every exponent 4·(w−i)+S is ≥ 0, i.e. 0 ≤ 4·(w−k+1)+S) -/
+def posValue (S : Nat) : Int → List Nat → Nat
+  | _, [] => 0
+  | w, d :: ds => d * 10 ^ (4 * w + S).toNat + posValue S (w - 1) ds
+
+/-! ### the value as a rational number -/
+
+/-- PostgreSQL's definition of the value of the digit string over ℚ: Σ dᵢ·10000^(w−i), with 10000^k written 10^(4k) -/
+def ratPositional : Int → List Nat → Rat
+  | _, [] => 0
+  | w, d :: ds => (d : Rat) * (10 : Rat) ^ (4 * w) + ratPositional (w - 1) ds
+
+/-- the rational value of a finite numeric: sign · Σ dᵢ·10000^(weight−i); the special values have none -/
+def Numeric.toRat : Numeric → Option Rat
+  | .fin neg w _ digits => some ((if neg then -1 else 1) * ratPositional w digits)
+  | _ => none
+
+/-- the rational a decimal ±mant·10^exp10 is -/
+def NumView.toRat : NumView → Option Rat
+  | .exact neg mant e => some ((if neg then -1 else 1) * ((mant : Rat) * (10 : Rat) ^ e))
+  | _ => none
+
+/-! ### the float64 a correct tool returns -/
+
+/-- bits of the binary64 nearest to ±mant·10^exp10 (round to nearest, ties to even; magnitudes beyond the finite
+range give ±Inf as IEEE-754 prescribes): `Txt.f64OfRat`, the project's executable definition of correct rounding -/
+def f64OfDec (neg : Bool) (mant : Nat) (exp10 : Int) : Nat :=
+  if exp10 ≥ 0 then Txt.f64OfRat neg (mant * 10 ^ exp10.toNat) 1 else Txt.f64OfRat neg mant (10 ^ (-exp10).toNat)
+
+/-- the float64 (as bits) a correct tool must return: Go's `math.NaN()`, ±Inf, or the double nearest to the value -/
+def NumView.bits : NumView → Nat
+  | .nan => 0x7FF8000000000001
+  | .pinf => 0x7FF0000000000000
+  | .ninf => 0xFFF0000000000000
+  | .exact neg mant e => f64OfDec neg mant e
+
+/-! ### decimal texts `[-]digits e [-]digits` and what they denote -/
+
+def isDigitCh (c : UInt8) : Bool := 48 ≤ c.toNat && c.toNat ≤ 57
+
+/-- the digits of `s`, most significant first, read onto `acc`; `none` at a non-digit -/
+def digitsOnto : Nat → Bytes → Option Nat
+  | acc, [] => some acc
+  | acc, c :: cs => if isDigitCh c then digitsOnto (acc * 10 + (c.toNat - 48)) cs else none
+
+/-- the natural number a non-empty string of decimal digits denotes -/
+def natOfText (s : Bytes) : Option Nat := if s = [] then none else digitsOnto 0 s
+
+/-- the integer a decimal numeral with an optional leading `-` denotes -/
+def intOfText : Bytes → Option Int
+  | [] => none
+  | c :: t => if c = 45 then (natOfText t).map (fun (n : Nat) => -(n : Int)) else (natOfText (c :: t)).map (fun (n : Nat) => (n : Int))
+
+/-- the decimal a text `[-]digits e [-]digits` denotes: (negative?, mantissa, exponent) for the value
+±mantissa·10^exponent; `none` for any other text -/
+def readDecimal (t : Bytes) : Option (Bool × Nat × Int) :=
+  let neg := t.head? == some 45
+  let body := if neg then t.drop 1 else t
+  match body.dropWhile (· != 101) with
+  | _ :: ex =>
+    match natOfText (body.takeWhile (· != 101)), intOfText ex with
+    | some m, some e => some (neg, m, e)
+    | _, _ => none
+  | [] => none
+
+/-- the documented contract of a correctly rounding decimal-to-binary64 conversion (Go: `strconv.ParseFloat(s, 64)`
+"returns the nearest floating-point number rounded using IEEE754 unbiased rounding"; beyond the finite range it
+returns ±Inf, which is what the code keeps since it discards the error), restricted to the texts `[-]digits e [-]digits`:
+the bits returned are those of the double nearest to the denoted decimal -/
+def ParseFloatOK (pf : Bytes → Nat) : Prop :=
+  ∀ t neg m e, readDecimal t = some (neg, m, e) → pf t = f64OfDec neg m e
+
+/-- the executable reference conversion: satisfies `ParseFloatOK` by construction (0 on texts outside the grammar);
+the driver's instance of the model's ParseFloat parameter, compared bit for bit with the real strconv on every case -/
+def parseFloatRef (t : Bytes) : Nat :=
+  match readDecimal t with
+  | some (neg, m, e) => f64OfDec neg m e
+  | none => 0
+
+theorem parseFloatRef_ok : ParseFloatOK parseFloatRef := by
+  intro t neg m e h
+  simp [parseFloatRef, h]
 
 /-! ### the reader's view of an arbitrary header word (for the exhaustive header family):
 how PostgreSQL itself (numeric_out and the NUMERIC_* macros) interprets any 16-bit n_header -/
